@@ -126,6 +126,47 @@ var checkC03Decode = register("C03/decode", func(c scoreCase3) string {
 	return ""
 })
 
+// assignedCase3: a vector that writes only some of the optional metrics is decoded by the
+// environmental decoder (optionally scored), then the exported temporal / environmental
+// fields are assigned the given values (indices into the code lists); the score must be the
+// FIRST value for the fields the object holds then. What the decoder recorded about which
+// tokens it saw must not matter any more.
+type assignedCase3 struct {
+	Input       string  `json:"decoded_vector"`
+	NilRecv     bool    `json:"nil_receiver"`
+	ScoredFirst bool    `json:"scored_before_assignment"`
+	T           [3]int  `json:"temporal_assigned"`
+	E           [11]int `json:"environmental_assigned"`
+}
+
+var checkC03Assigned = register("C03/decoded-then-assigned", func(c assignedCase3) string {
+	ref, ok := spec.AcceptV3(c.Input, spec.Environmental)
+	if !ok {
+		return ""
+	}
+	x := spec.IdxV3(ref)
+	f := fieldCase3{Ver: x.Ver, B: x.B, T: c.T, E: c.E}
+	if !inRange3(f) {
+		return ""
+	}
+	o, err := decode3(spec.Environmental, c.Input, c.NilRecv)
+	if err != nil || o.isNil() {
+		return fmt.Sprintf("well-formed vector rejected by the environmental decoder: %v", err)
+	}
+	if c.ScoredFirst {
+		o.E.Score()
+		o.E.Severity()
+	}
+	bind.SetV3Temporal(o.E.Temporal, c.T)
+	bind.SetV3Env(o.E, c.E)
+	want := spec.V3Env10(f.idx())
+	got := o.E.Score()
+	if k, grid := tenths(got); !grid || k != want {
+		return fmt.Sprintf("decoded %q, then fields assigned to %s: environmental score %v, exact FIRST value %d.%d", c.Input, f.withText().Text, fmtScore(got), want/10, want%10)
+	}
+	return ""
+})
+
 // layer-2 index space: version x base x environmental
 var envDims = [11]int{4, 4, 4, 5, 3, 4, 3, 3, 4, 4, 4}
 var baseDims = [8]int{4, 2, 3, 2, 2, 3, 3, 3}
@@ -184,7 +225,7 @@ func c03Classes(f fieldCase3, cl map[string]int64) (nontrivial bool) {
 func TestC03(t *testing.T) {
 	c := begin(t, "C03")
 	defer c.end()
-	c.rec.F.Rule = "layer1 (complete): 2 versions x 64 (CR,IR,AR) x 27 (MC,MI,MA) x 2 (MS) x 48 (MAV,MAC,MPR,MUI) x 100 (E,RL,RC) = 33,177,600 objects with every Modified metric defined and every base metric set to a *different* value, built by assigning exported fields; layer2: the version x base x environmental product (11,466,178,560 points; quick: 16,000,000 points chosen by a seeded pseudo-random bijection (Feistel network) of the index space, distinct by construction; thorough: complete), temporal metrics chosen by a hash of the index; layer3: rapid well-formed environmental vectors through Decode (random order, omission, explicit X); layer4: for every version x base combination, the vector whose eight Modified metrics are written out equal to the base metrics, and its variants with exactly one Modified metric changed or one requirement raised, through Decode (quick: a quarter of the variants). layer5: on one object, for every pair of the 23 fields, every pair of start values and every pair of end values in three contexts: assign, score, re-assign exactly those two fields, score again. Non-trivial: layer1 all with modified impact > 0; layer2 at least one Modified metric X (falls back to the base value) and at least one defined; layer3 at least one environmental metric defined."
+	c.rec.F.Rule = "layer1 (complete): 2 versions x 64 (CR,IR,AR) x 27 (MC,MI,MA) x 2 (MS) x 48 (MAV,MAC,MPR,MUI) x 100 (E,RL,RC) = 33,177,600 objects with every Modified metric defined and every base metric set to a *different* value, built by assigning exported fields; layer2: the version x base x environmental product (11,466,178,560 points; quick: 16,000,000 points chosen by a seeded pseudo-random bijection (Feistel network) of the index space, distinct by construction; thorough: complete), temporal metrics chosen by a hash of the index; layer3: rapid well-formed environmental vectors through Decode (random order, omission, explicit X); layer4: for every version x base combination, the vector whose eight Modified metrics are written out equal to the base metrics, and its variants with exactly one Modified metric changed or one requirement raised, through Decode (quick: a quarter of the variants). layer5: on one object, for every pair of the 23 fields, every pair of start values and every pair of end values in three contexts: assign, score, re-assign exactly those two fields, score again. layer6: vectors writing none, one, two or all but one of the environmental metrics are decoded (sometimes scored), then other environmental fields are assigned each of their values, and the score is compared with the exact model of the fields then held. Non-trivial: layer1 all with modified impact > 0; layer2 at least one Modified metric X (falls back to the base value) and at least one defined; layer3 at least one environmental metric defined."
 	c.rec.F.Assumptions = []string{"reference model: exact rational MISS with 0.915 cap, version-specific changed-scope polynomial, exact exploitability with PR weights by effective scope, double Roundup (harness/spec)", "objects built from the exported constructor plus exported-field assignment, as property C03 allows"}
 
 	// ---- layer 1 ---------------------------------------------------------------------
@@ -444,6 +485,73 @@ func TestC03(t *testing.T) {
 			_ = ci
 		}
 		c.rec.Bulk("layer5-two-field-transitions", evals, evals, map[string]int64{"layer5:two-field-transition": evals})
+	}
+
+	// ---- layer 6: partial vectors decoded, then fields assigned -----------------------------
+	// The decoded vector writes none, one or two of the eleven environmental metrics (every
+	// value, explicit X included), or all but one; then one or two *other* environmental fields
+	// are assigned each of their values. Score arithmetic that consults the decoder's
+	// bookkeeping (which tokens were seen) instead of the fields shows only on such objects.
+	{
+		var evals int64
+		nviol := 0
+		envM := spec.V3E()
+		bases := []string{"CVSS:3.1/AV:N/AC:L/PR:L/UI:N/S:U/C:H/I:L/A:N", "CVSS:3.0/AV:A/AC:H/PR:H/UI:R/S:C/C:L/I:H/A:L/E:F/RL:W", "CVSS:3.1/AV:L/AC:L/PR:H/UI:N/S:C/C:H/I:H/A:H/RC:R"}
+		k := 0
+		run := func(vec string, written map[int]int) {
+			ref, ok := spec.AcceptV3(vec, spec.Environmental)
+			if !ok {
+				return
+			}
+			x := spec.IdxV3(ref)
+			for f := 0; f < 11 && nviol == 0; f++ {
+				if _, w := written[f]; w {
+					continue
+				}
+				for v := 1; v < len(envM[f].Codes) && nviol == 0; v++ {
+					k++
+					if !mine(k) {
+						continue
+					}
+					cs := assignedCase3{Input: vec, NilRecv: k%5 == 0, ScoredFirst: k%3 == 0, T: x.T, E: x.E}
+					cs.E[f] = v
+					if k%4 == 0 { // a second field changes as well
+						g := (f + 1 + k%10) % 11
+						if _, w := written[g]; !w {
+							cs.E[g] = 1 + (k/7)%(len(envM[g].Codes)-1)
+						}
+					}
+					evals++
+					evalEnum(c, "decoded-then-assigned", cs, checkC03Assigned, &nviol)
+				}
+			}
+		}
+		for _, b := range bases {
+			run(b, map[int]int{}) // no environmental token at all
+			for i := 0; i < 11; i++ {
+				for vi := range envM[i].Codes { // one token, every value (X included)
+					run(b+"/"+envM[i].Name+":"+envM[i].Codes[vi], map[int]int{i: vi})
+				}
+				for j := i + 1; j < 11; j++ { // two tokens, two hash-chosen value pairs
+					for variant := 0; variant < 2; variant++ {
+						h := mix(uint64(i*11+j), uint64(variant))
+						vi, vj := int(h%uint64(len(envM[i].Codes))), int((h>>8)%uint64(len(envM[j].Codes)))
+						run(b+"/"+envM[i].Name+":"+envM[i].Codes[vi]+"/"+envM[j].Name+":"+envM[j].Codes[vj], map[int]int{i: vi, j: vj})
+					}
+				}
+				// all but metric i written (hash-chosen values)
+				vec, wr := b, map[int]int{}
+				for j := 0; j < 11; j++ {
+					if j != i {
+						vj := int(mix(uint64(i), uint64(j)) % uint64(len(envM[j].Codes)))
+						vec += "/" + envM[j].Name + ":" + envM[j].Codes[vj]
+						wr[j] = vj
+					}
+				}
+				run(vec, wr)
+			}
+		}
+		c.rec.Bulk("layer6-partial-vector-then-assignment", evals, evals, map[string]int64{"layer6:decoded-then-assigned": evals})
 	}
 
 	// ---- layer 3 ---------------------------------------------------------------------
